@@ -1,6 +1,8 @@
 # property table: what each check builds, proves and runs
 from .fam_valid import Valid
 from .fam_be import Be
+from .fam_seg import Seg
+from .fam_iovs import Iovs
 
 PROPS = {}
 
@@ -44,7 +46,19 @@ reg(id="C09", props="Props/C09.v", proof_files=["Proofs/BeProofs.v"], families=[
     rule=BE_RULE + "; descriptors are distinct memfds identified by inode; leak = known inodes still open after dropping server, handler state and peer, plus growth of /proc/self/fd",
     trusted_base=BE_TB, assumptions=BE_ASSUME + ["the kernel disposes of SCM_RIGHTS descriptors that were never received when the socket is closed"])
 
+reg(id="C08", props="Props/C08.v", proof_files=["Proofs/TransportProofs.v", "Proofs/FramingProofs.v"],
+    families=[Seg(), Iovs()],
+    rule="family seg: clean request histories (as family be) where one message is delivered under every 2-split at characteristic "
+         "offsets (1, 11, 12, 13, len-1, random), random 3-splits, byte-by-byte, and all messages split at the header boundary, "
+         "forced deterministically by the interposed recvmsg; and the stream cut at offsets 0, 1, 11, 12, 13, len-1, random of a "
+         "message followed by end-of-stream; each case runs the real server twice (whole / variant). family iovs: "
+         "get_sub_iovs_offset on all length vectors over {0,1,2,3,12} up to 3 entries x every skip, plus random. "
+         "non-trivial = the whole run invoked a handler",
+    trusted_base=BE_TB, assumptions=BE_ASSUME + ["sender side: sendmsg accepts a prefix of the offered bytes or fails with an errno (oracle); "
+                                                   "SCM_RIGHTS of a partially accepted sendmsg travel with its first byte"])
 reg(id="BE-DEV",
     props="Props/C20.v",
     families=[Be()],
     rule="development entry for the be family")
+
+reg(id="SEG-DEV", props="Props/C20.v", families=[Seg()], rule="dev")
